@@ -55,7 +55,13 @@ func genZipkinBatch(r *vgen.Rand) (tracetest.SpanStubs, bool) {
 			Status: tracesdk.Status{Code: codes.Code(r.Intn(3))},
 		}
 		st.SpanContext = trace.NewSpanContext(trace.SpanContextConfig{TraceID: genTraceID(r), SpanID: genSpanID(r, i+1), TraceFlags: 1})
-		if r.Bool() {
+		if r.Chance(1, 8) { // half-valid parent contexts: the span id alone decides
+			if r.Bool() {
+				st.Parent = trace.NewSpanContext(trace.SpanContextConfig{SpanID: genSpanID(r, 100+i)})
+			} else {
+				st.Parent = trace.NewSpanContext(trace.SpanContextConfig{TraceID: st.SpanContext.TraceID()})
+			}
+		} else if r.Bool() {
 			st.Parent = trace.NewSpanContext(trace.SpanContextConfig{TraceID: st.SpanContext.TraceID(), SpanID: genSpanID(r, 100+i)})
 			if r.Chance(1, 6) {
 				var p trace.SpanID
